@@ -281,6 +281,9 @@ func c06matrix(ev *verifev.Run, mux http.Handler, dir string, m c06state, snap v
 						if leaksList(resp) {
 							viol("list-disclosed", "refused request discloses user list: %s", resp)
 						}
+						if n := leaksNames(resp, m, tg, cr.sessUser); n != "" {
+							viol("list-disclosed", "refused request discloses the existence of user %s: %s", n, resp)
+						}
 					} else {
 						// directory effect must equal the model effect
 						got := c06read(dir, want, m)
@@ -325,13 +328,38 @@ func c06matrix(ev *verifev.Run, mux http.Handler, dir string, m c06state, snap v
 	return out
 }
 
+// leaksList: the body (possibly several JSON documents or trailing text) contains a user list.
 func leaksList(resp []byte) bool {
-	var x map[string]json.RawMessage
-	if json.Unmarshal(resp, &x) != nil {
-		return false
+	dec := json.NewDecoder(bytes.NewReader(resp))
+	for {
+		var x map[string]json.RawMessage
+		if err := dec.Decode(&x); err != nil {
+			break
+		}
+		if l, ok := x["list"]; ok && string(l) != "null" && string(l) != "{}" {
+			return true
+		}
 	}
-	l, ok := x["list"]
-	return ok && string(l) != "null" && string(l) != "{}"
+	return false
+}
+
+// leaksNames: names of users other than the ones the request itself mentions appear in the body.
+func leaksNames(resp []byte, m c06state, mentioned ...string) string {
+	for u := range m {
+		skip := false
+		for _, x := range mentioned {
+			if strings.EqualFold(x, u) || strings.Contains(strings.ToLower(x), strings.ToLower(u)) {
+				skip = true
+			}
+		}
+		if skip || len(u) < 2 {
+			continue
+		}
+		if bytes.Contains(resp, []byte(`"`+u+`"`)) {
+			return u
+		}
+	}
+	return ""
 }
 
 // c06read reads the store back through the library and renders it like c06state.key();
